@@ -201,6 +201,7 @@ def cases(tier, rng):
     yield from s1.base_cases(tier, rng, s1.KINDS_ALL, s1.cons_exhaust, tools_subset=s1.ITER_TOOLS, maxlen=4 if tier == "quick" else 5)
     yield from s1.odd_value_cases(tier, rng, s1.KINDS_ALL, 1500 if tier == "quick" else 20000, tools_subset=s1.ITER_TOOLS)
     yield from s1.impure_fn_cases(tier, rng, s1.KINDS_ALL, tools_subset=s1.ITER_TOOLS)
+    yield from s1.shared_source_cases(tier, rng, s1.KINDS_ALL)
     yield from s1.random_cases(tier, rng, s1.KINDS_ALL, 3000 if tier == "quick" else 60000, cons_kinds=("exhaust",), tools_subset=s1.ITER_TOOLS)
 
 
